@@ -49,6 +49,55 @@ pub fn optimize(rules: Vec<Rule>) -> Vec<OptimizedRule> {
         .collect()
 }
 
+/// Individual optimizer passes for the verification harness (`/verif`).
+#[cfg(pest_parser_pest_verif)]
+pub mod verif {
+    use super::*;
+
+    /// `rotate`
+    pub fn rotate(rule: Rule) -> Rule {
+        rotator::rotate(rule)
+    }
+    /// `skip` with the rule map built from `rules`
+    pub fn skip(rule: Rule, rules: &[Rule]) -> Rule {
+        skipper::skip(rule, &to_hash_map(rules))
+    }
+    /// `unroll`
+    pub fn unroll(rule: Rule) -> Rule {
+        unroller::unroll(rule)
+    }
+    /// `concatenate`
+    pub fn concatenate(rule: Rule) -> Rule {
+        concatenator::concatenate(rule)
+    }
+    /// `factor`
+    pub fn factor(rule: Rule) -> Rule {
+        factorizer::factor(rule)
+    }
+    /// `list`
+    pub fn list(rule: Rule) -> Rule {
+        lister::list(rule)
+    }
+    /// The whole pipeline with the `list` pass left out.
+    pub fn optimize_without_list(rules: Vec<Rule>) -> Vec<OptimizedRule> {
+        let map = to_hash_map(&rules);
+        let optimized: Vec<OptimizedRule> = rules
+            .into_iter()
+            .map(rotator::rotate)
+            .map(|rule| skipper::skip(rule, &map))
+            .map(unroller::unroll)
+            .map(concatenator::concatenate)
+            .map(factorizer::factor)
+            .map(rule_to_optimized_rule)
+            .collect();
+        let optimized_map = to_optimized_hash_map(&optimized);
+        optimized
+            .into_iter()
+            .map(|rule| restorer::restore_on_err(rule, &optimized_map))
+            .collect()
+    }
+}
+
 fn rule_to_optimized_rule(rule: Rule) -> OptimizedRule {
     fn to_optimized(expr: Expr) -> OptimizedExpr {
         match expr {
